@@ -1224,15 +1224,21 @@ def consistent_alts(body, e, bb):
     ds = body.defs().get(p.local, [])
     if len(ds) != len(p.alts):
         return None
-    here = [f for f in facts_at(body, bb) if f[0] == "IntEq"]
+    here = [f for f in facts_at(body, bb) if f[0] in ("IntEq", "IntNe")]
     out = []
     for (dbb, si, kind, payload), alt in zip(ds, p.alts):
         excluded = False
         for f in facts_at(body, dbb):
-            if f[0] != "IntEq":
+            if f[0] not in ("IntEq", "IntNe"):
                 continue
             for g in here:
-                if g[2] != f[2] and _same_expr(f[1], g[1]) and not _self_field_written_between(body, f[1], dbb, bb):
+                if f[0] == "IntEq" and g[0] == "IntEq":
+                    clash = g[2] != f[2]
+                elif f[0] != g[0]:
+                    clash = g[2] == f[2]          # X == v there, X != v here (the `else` of an `if let`), or the other way round
+                else:
+                    clash = False
+                if clash and _same_expr(f[1], g[1]) and not _self_field_written_between(body, f[1], dbb, bb):
                     excluded = True
         if not excluded:
             out.append(alt)
